@@ -238,6 +238,13 @@ def catalog_cases(tier, seed):
                     yield {"shape": list(shape), "fam": fam, "r": r, "k": k, "kind": "gen", "form": "pairs", "dform": "-"}
                     for df in dims_forms(shape):
                         yield {"shape": list(shape), "fam": fam, "r": r, "k": k, "kind": "gen", "form": "choi", "dform": df}
+    # unequal input / output dimensions whose product is a perfect square: the Choi matrix then has the size of a map M_n -> M_n, and only the
+    # explicit dims say otherwise (added after seeded change C05-10, which ignored dims whenever both sides were perfect squares)
+    for o, i in ((1, 4), (4, 1), (2, 8), (8, 2), (1, 9), (9, 1)):
+        shape = (o, i, o, i)
+        for fam in ch.FAMILIES[:2]:
+            for df in ("mat", "mat_nd", "vec"):
+                yield {"shape": list(shape), "fam": fam, "r": 2, "k": 0, "kind": "gen", "form": "choi", "dform": df}
     D = dims_alphabet(tier)
     for o, i in sorted(itertools.product(D, repeat=2), key=lambda s: (max(s), sum(s), s)):
         shape = (o, i, o, i)
